@@ -1,7 +1,7 @@
 """Per-property checks.  Every check has a model half (TLC on the
 specification) and a conformance half (the specification bound to the code
 built from /repo's working tree); it reports nothing until both have run."""
-import json, os, time, shutil, glob
+import json, os, time, shutil, glob, tempfile
 from vrun import (Machinery, Verdict, build_vh, build_server, log, model_check, run_vh, run_tlc, sany, scratch,
                   seed, trace_context, validate_trace, write_evidence, SPEC, OUT, VERIF, REPO, GOENV, GO)
 
@@ -384,6 +384,69 @@ def c02(prop, tier):
                         "every blob x offset is read through disk.Get / GetZstd (size known and unknown), ByteStream.Read blobs/ and compressed-blobs/zstd/ with offset and read_limit, and at offset 0 through HTTP GET (identity and zstd), HEAD and BatchReadBlobs (identity and zstd); zstd answers are decoded by the harness before comparison",
                         "writer storage mode x reader storage mode (restart in between) x codec implementation; the cgo codec in the thorough tier only"],
                        "tlc CasBlob.tla + vh reads")
+
+
+@check("C20")
+def c20(prop, tier):
+    """Format.tla three ways: model (round trip, injectivity, names table), render (header bytes for
+    independent encodings), validate (headers of files written by this build)."""
+    t0 = time.time()
+    cov = new_cov()
+    v = Verdict(prop)
+    names = os.path.join(scratch(), "format-names.json")
+    r = run_tlc("Format.tla", "Format.cfg", env={"VERIF_CASES_OUT": names}, workers=4, timeout=600)
+    if not r.ok or not os.path.exists(names):
+        raise Machinery(f"Format.tla model mode did not pass: {r.invariant or r.error}\n{r.output[-2000:]}")
+    log(f"[model] Format (model): {r.distinct} headers, names table written, {r.wall_s:.1f}s")
+    add_model(cov, "Format/model", r, "every header of blobs of 1..5 bytes in chunks of 1..3 bytes with frames of 1..3 bytes, both compression types: parse(render(h)) = h, frame size skips exactly the header, well-formedness fixes every chunk position; naming functions injective over 3 kinds x 3 hashes x 2 modes x 3 prefixes")
+    prep = tempfile.mkdtemp(prefix="fmt-prep-", dir=scratch())
+    res = run_vh(["format", "-phase", "prep", "-prep", prep, "-tier", tier, "-seed", str(seed())], timeout=1800)
+    if res.get("error") or res["cases"] == 0:
+        raise Machinery(f"format prep failed: {res.get('error')}")
+    headers = os.path.join(scratch(), "format-headers.json")
+    r2 = run_tlc("Format.tla", "Format_render.cfg", env={"VERIF_PARAMS_IN": os.path.join(prep, "params.ndjson"), "VERIF_HEADERS_OUT": headers}, workers=1, timeout=900)
+    if not r2.ok or not os.path.exists(headers):
+        raise Machinery(f"Format.tla render mode did not pass: {r2.invariant or r2.error}\n{r2.output[-2000:]}")
+    log(f"[model] Format (render): header bytes for {r2.distinct} independent encodings, {r2.wall_s:.1f}s")
+    add_model(cov, "Format/render", r2, "header bytes laid out by the specification for every independent encoding of this run (chunk sizes 4 KiB .. 5 MiB, 6 encoder settings, both compression types)")
+    record = os.path.join(scratch(), "format-written.ndjson")
+    args = ["format", "-phase", "run", "-prep", prep, "-headers", headers, "-names", names, "-record", record, "-tier", tier, "-seed", str(seed())]
+    res = run_vh(args, timeout=7200)
+    collect_driver(v, res, {"driver_args": args, "kind": "driver"})
+    log(f"[conf] format: {res['cases']} experiments, {len(res.get('violations', []))} violations, {res['_wall_s']:.1f}s")
+    nrec = sum(1 for _ in open(record)) if os.path.exists(record) else 0
+    if nrec:
+        r3 = run_tlc("Format.tla", "Format_validate.cfg", env={"VERIF_TRACE_FILE": record}, workers=1, timeout=900)
+        if r3.reject:
+            tag, line = r3.reject
+            rec_line = open(record).read().splitlines()[line - 1]
+            name = json.loads(rec_line).get("name")
+            v.add(prop, f"trace:{tag}", f"a compressed CAS file written by this build ({name}) does not conform to the format: {tag}",
+                  {"kind": "trace", "tag": tag, "line": line, "file": name})
+        elif not r3.ok:
+            raise Machinery(f"Format.tla validate mode failed: {r3.invariant or r3.error}\n{r3.output[-2000:]}")
+        log(f"[trace] Format (validate): {nrec} recorded headers, {'rejected: ' + str(r3.reject) if r3.reject else 'accepted'}, {r3.wall_s:.1f}s")
+        add_model(cov, "Format/validate", r3, "headers of the compressed CAS files this build wrote in this run: parsable, re-render to identical bytes, well formed against the file size, size/name/chunk size/type as published")
+    elif not res.get("violations"):
+        raise Machinery("format run recorded no written files")
+    shutil.rmtree(prep, ignore_errors=True)
+    cov["evaluations"] = res["cases"]
+    cov["distinct_nontrivial"] = res["nontrivial"]
+    cov["rule"] = res["rule"]
+    cov["samples"] = res.get("samples", [])[:5]
+    cov["extra"] = res.get("extra")
+    cov["recorded_headers"] = nrec
+    cov["drivers"].append({"driver": "format", "executions": res["cases"], "drive_s": round(res["_wall_s"], 1)})
+    cov["checker_cmd"] = "tlc Format.tla (model / render / validate) + vh format"
+    if res["cases"] < 10:
+        raise Machinery("C20: vacuous run")
+    rc = v.finish()
+    write_evidence(prop, tier, "model_checking", cov, time.time() - t0, len(v.violations),
+                   ["the format is the one this tree and README describe (casblob.go header comment, FileLocation, objectKey functions); Format.tla is its single statement and every byte of a header used in the experiments comes from it",
+                    "independent encodings are produced by the harness with klauspost/compress zstd under six encoder settings; the harness's reader shares no code with casblob.go",
+                    "HTTP, S3 (minio client against a local S3-dialect server) and gRPC (a second real server with recording interceptors) backends are driven through the real proxy clients; the Azure endpoint cannot be redirected, its object names are read through a verif-tagged accessor",
+                    "TLC integers are 32 bit: files up to 2 GiB; the upper halves of 8-byte fields are zero in all experiments"])
+    return rc
 
 
 @check("C09")
